@@ -278,3 +278,235 @@ Qed.
 
 Theorem remove_redundant_else_preserves p : equiv p (remove_redundant_else_model p).
 Proof. apply (proj1 (rre_sound (fuel_of p))). Qed.
+
+(* ------------------------------------------------------------------------------------------ *)
+(* head-of-block characterisations *)
+Lemma runs_ret o st e rest r :
+  runs o st (SReturn e :: rest) r <-> r = (Ret (fst (eval_rexpr o st e)), snd (eval_rexpr o st e)).
+Proof.
+  rewrite runs_cons. simpl. split.
+  - intros [r1 [-> H]]. exact H.
+  - intros ->. eexists; split; reflexivity.
+Qed.
+Lemma runs_assign o st x e rest r :
+  runs o st (SAssign x e :: rest) r <->
+  runs o (set_var x (fst (eval_rexpr o st e)) (snd (eval_rexpr o st e))) rest r.
+Proof.
+  rewrite runs_cons. simpl. split.
+  - intros [r1 [-> H]]. exact H.
+  - intros H. eexists; split; [reflexivity|exact H].
+Qed.
+Lemma runs_if o st t b e rest r :
+  runs o st (SIf t b e :: rest) r <->
+  exists r1, runs o (snd (eval_test o st t)) (if truthy (fst (eval_test o st t)) then b else e) r1
+             /\ after o r1 rest r.
+Proof. rewrite runs_cons. simpl. tauto. Qed.
+
+Lemma boolish_val t o st :
+  boolish t = true -> fst (eval_test o st t) = VBool (truthy (fst (eval_test o st t))).
+Proof.
+  destruct t as [b|i rd|u]; simpl; try discriminate; intros _; [reflexivity|].
+  destruct (eval_test o st u); reflexivity.
+Qed.
+
+Lemma tnot_val t o st :
+  eval_test o st (TNot t) = (VBool (negb (truthy (fst (eval_test o st t)))), snd (eval_test o st t)).
+Proof. simpl. destruct (eval_test o st t); reflexivity. Qed.
+
+(* ------------------------------------------------------------------------------------------ *)
+(* fix_if_return *)
+Lemma ret_const_inv b v : ret_const b = Some v -> b = [SReturn (RVal (VBool v))].
+Proof.
+  unfold ret_const. destruct b as [|x tl]; try discriminate.
+  destruct x; try discriminate. destruct e; try discriminate. destruct v0; try discriminate.
+  destruct tl; try discriminate. intros H; inversion H; reflexivity.
+Qed.
+
+Lemma xorb_true_negb a b : xorb a b = true -> b = negb a.
+Proof. destruct a, b; simpl; congruence. Qed.
+
+Lemma fir_site_inv p t v rest :
+  fir_site p = Some (t, v, rest) ->
+  p = SIf t [SReturn (RVal (VBool v))] [] :: SReturn (RVal (VBool (negb v))) :: rest.
+Proof.
+  unfold fir_site. destruct p as [|s p]; try discriminate. destruct s; try discriminate.
+  destruct orelse; try discriminate. destruct p as [|s2 rest']; try discriminate.
+  destruct s2; try discriminate. destruct e; try discriminate. destruct v0; try discriminate.
+  destruct (ret_const body) as [w|] eqn:Er; try discriminate.
+  destruct (xorb w b) eqn:Ex; try discriminate.
+  intros H; inversion H; subst. rewrite (ret_const_inv _ _ Er), (xorb_true_negb _ _ Ex). reflexivity.
+Qed.
+
+Lemma fir_true t rest :
+  boolish t = true ->
+  equiv (SIf t [SReturn (RVal (VBool true))] [] :: SReturn (RVal (VBool false)) :: rest)
+        (SReturn (RTest t) :: rest).
+Proof.
+  intros Hb o st r. rewrite runs_if, runs_ret. simpl eval_rexpr.
+  pose proof (boolish_val t o st Hb) as Hv.
+  destruct (eval_test o st t) as [v st1]. simpl in *.
+  destruct (truthy v) eqn:Et; subst v.
+  - split.
+    + intros [r1 [H1 H2]]. apply runs_ret in H1. simpl in H1. subst r1. exact H2.
+    + intros ->. eexists; split; [apply runs_ret; reflexivity|reflexivity].
+  - split.
+    + intros [r1 [H1 H2]]. apply runs_nil in H1. subst r1. simpl in H2. apply runs_ret in H2. exact H2.
+    + intros ->. eexists; split; [apply runs_nil; reflexivity|]. simpl. apply runs_ret. reflexivity.
+Qed.
+
+Lemma fir_false t rest :
+  equiv (SIf t [SReturn (RVal (VBool false))] [] :: SReturn (RVal (VBool true)) :: rest)
+        (SReturn (RTest (TNot t)) :: rest).
+Proof.
+  intros o st r. rewrite runs_if, runs_ret. unfold eval_rexpr. rewrite tnot_val. simpl fst. simpl snd.
+  destruct (truthy (fst (eval_test o st t))).
+  - split.
+    + intros [r1 [H1 H2]]. apply runs_ret in H1. simpl in H1. subst r1. exact H2.
+    + intros ->. eexists; split; [apply runs_ret; reflexivity|reflexivity].
+  - split.
+    + intros [r1 [H1 H2]]. apply runs_nil in H1. subst r1. simpl in H2. apply runs_ret in H2. exact H2.
+    + intros ->. eexists; split; [apply runs_nil; reflexivity|]. simpl. apply runs_ret. reflexivity.
+Qed.
+
+Lemma fir_partial_n n : forall p, fir_safe n p = true -> equiv p (fir n p).
+Proof.
+  induction n as [|n IH]; intros p Hs; simpl; [apply equiv_refl|]. simpl in Hs.
+  destruct (fir_site p) as [[[t v] rest]|] eqn:Es.
+  - apply andb_true_iff in Hs. destruct Hs as [Hb Hr].
+    rewrite (fir_site_inv _ _ _ _ Es). destruct v; simpl.
+    + eapply equiv_trans; [apply fir_true; exact Hb|]. apply equiv_cons, IH, Hr.
+    + eapply equiv_trans; [apply fir_false|]. apply equiv_cons, IH, Hr.
+  - destruct p as [|s rest]; [apply equiv_refl|].
+    apply andb_true_iff in Hs. destruct Hs as [Hk Hr].
+    apply (equiv_app [s] [_] rest (fir n rest)); [|apply IH, Hr].
+    destruct s; try apply equiv_refl; apply andb_true_iff in Hk; destruct Hk.
+    + apply equiv_if; apply IH; assumption.
+    + apply equiv_loop; apply IH; assumption.
+Qed.
+
+Theorem fix_if_return_partial p :
+  fir_safe (fuel_of p) p = true -> equiv p (fix_if_return_model p).
+Proof. apply fir_partial_n. Qed.
+
+Definition st0 : state := mkSt (fun _ => VBool false) 0 [].
+Definition o_obj : oracle := fun _ => VObj true 0.      (* every opaque call returns a truthy non-bool (5) *)
+
+Ltac refute_with o st p q :=
+  let H := fresh "H" in let H1 := fresh "H1" in
+  let R := fresh "R" in let Q := fresh "Q" in let r := fresh "r" in let r' := fresh "r'" in
+  let r2 := fresh "r2" in let H2 := fresh "H2" in let Ho := fresh "Ho" in let E := fresh "E" in
+  intros H; destruct (H o st) as [H1 _];
+  assert (R : exists r, exec 20 o st p = Some r) by (eexists; vm_compute; reflexivity);
+  destruct R as [r R];
+  assert (Q : exists r', exec 20 o st q = Some r') by (eexists; vm_compute; reflexivity);
+  destruct Q as [r' Q];
+  destruct (H1 r (ex_intro _ 20 R)) as [r2 [H2 Ho]];
+  pose proof (runs_det _ _ _ _ _ H2 (ex_intro _ 20 Q)) as E; subst r2;
+  vm_compute in R; vm_compute in Q; inversion R; inversion Q; subst; vm_compute in Ho; discriminate Ho.
+
+Definition fir_witness : list stmt :=
+  [SIf (Unknown 1 []) [SReturn (RVal (VBool true))] []; SReturn (RVal (VBool false))].
+
+Theorem fix_if_return_refuted : exists p, ~ obs_equiv p (fix_if_return_model p).
+Proof.
+  exists fir_witness.
+  refute_with o_obj st0 fir_witness (fix_if_return_model fir_witness).
+Qed.
+
+Example fix_if_return_partial_nontrivial :
+  let p := [SEv 1 []; SIf (TNot (Unknown 1 [0])) [SReturn (RVal (VBool true))] []; SReturn (RVal (VBool false))] in
+  fir_safe (fuel_of p) p = true /\ fix_if_return_model p <> p.
+Proof. split; [reflexivity|discriminate]. Qed.
+
+(* ------------------------------------------------------------------------------------------ *)
+(* fix_if_assign *)
+Lemma asg_const_inv b x v : asg_const b = Some (x, v) -> b = [SAssign x (RVal (VBool v))].
+Proof.
+  unfold asg_const. destruct b as [|s tl]; try discriminate.
+  destruct s; try discriminate. destruct e; try discriminate. destruct v0; try discriminate.
+  destruct tl; try discriminate. intros H; inversion H; reflexivity.
+Qed.
+
+Lemma fia_site_inv s t x v :
+  fia_site s = Some (t, x, v) ->
+  s = SIf t [SAssign x (RVal (VBool v))] [SAssign x (RVal (VBool (negb v)))].
+Proof.
+  unfold fia_site. destruct s; try discriminate.
+  destruct (asg_const body) as [[x1 v1]|] eqn:E1; try discriminate.
+  destruct (asg_const orelse) as [[x2 v2]|] eqn:E2; try discriminate.
+  destruct (Nat.eqb x1 x2) eqn:En; [|discriminate]. apply Nat.eqb_eq in En. subst.
+  destruct (xorb v1 v2) eqn:Ex; [|discriminate]. simpl. intros H; inversion H; subst.
+  rewrite (asg_const_inv _ _ _ E1), (asg_const_inv _ _ _ E2), (xorb_true_negb _ _ Ex). reflexivity.
+Qed.
+
+Lemma fia_true t x :
+  boolish t = true ->
+  equiv [SIf t [SAssign x (RVal (VBool true))] [SAssign x (RVal (VBool false))]] [SAssign x (RTest t)].
+Proof.
+  intros Hb o st r. rewrite runs_if, runs_assign. simpl eval_rexpr.
+  pose proof (boolish_val t o st Hb) as Hv.
+  destruct (eval_test o st t) as [v st1]. simpl in *.
+  destruct (truthy v) eqn:Et; subst v.
+  - split.
+    + intros [r1 [H1 H2]]. apply runs_assign in H1. apply runs_nil in H1. subst r1. exact H2.
+    + intros H. eexists; split; [apply runs_assign, runs_nil; reflexivity|exact H].
+  - split.
+    + intros [r1 [H1 H2]]. apply runs_assign in H1. apply runs_nil in H1. subst r1. exact H2.
+    + intros H. eexists; split; [apply runs_assign, runs_nil; reflexivity|exact H].
+Qed.
+
+Lemma fia_false t x :
+  equiv [SIf t [SAssign x (RVal (VBool false))] [SAssign x (RVal (VBool true))]] [SAssign x (RTest (TNot t))].
+Proof.
+  intros o st r. rewrite runs_if, runs_assign. unfold eval_rexpr. rewrite tnot_val. simpl fst. simpl snd.
+  destruct (truthy (fst (eval_test o st t))).
+  - split.
+    + intros [r1 [H1 H2]]. apply runs_assign in H1. apply runs_nil in H1. subst r1. exact H2.
+    + intros H. eexists; split; [apply runs_assign, runs_nil; reflexivity|exact H].
+  - split.
+    + intros [r1 [H1 H2]]. apply runs_assign in H1. apply runs_nil in H1. subst r1. exact H2.
+    + intros H. eexists; split; [apply runs_assign, runs_nil; reflexivity|exact H].
+Qed.
+
+Lemma map_equiv (F : stmt -> stmt) p :
+  (forall s, In s p -> equiv [s] [F s]) -> equiv p (map F p).
+Proof.
+  induction p as [|s p IH]; intros H; simpl; [apply equiv_refl|].
+  apply (equiv_app [s] [F s] p (map F p)); [apply H; left; reflexivity|].
+  apply IH. intros; apply H; right; assumption.
+Qed.
+
+Lemma fia_partial_n n :
+  (forall p, fia_safe n p = true -> equiv p (fia n p)) /\
+  (forall e, fia_safe_else n e = true -> equiv e (fia_else n e)).
+Proof.
+  induction n as [|n [IHp IHe]]; split; intros; simpl; try apply equiv_refl.
+  - apply map_equiv. intros s Hin. simpl in H. rewrite forallb_forall in H. specialize (H s Hin).
+    destruct (fia_site s) as [[[t x] v]|] eqn:Es.
+    + rewrite (fia_site_inv _ _ _ _ Es). destruct v; simpl; [apply fia_true; exact H|apply fia_false].
+    + destruct s; try apply equiv_refl; apply andb_true_iff in H; destruct H.
+      * apply equiv_if; auto.
+      * apply equiv_loop; auto.
+  - simpl in H. destruct e as [|s tl]; [apply IHp; exact H|].
+    destruct s; try (apply IHp; exact H). destruct tl; [|apply IHp; exact H].
+    apply andb_true_iff in H. destruct H. apply equiv_if; auto.
+Qed.
+
+Theorem fix_if_assign_partial p :
+  fia_safe (fuel_of p) p = true -> equiv p (fix_if_assign_model p).
+Proof. apply (proj1 (fia_partial_n (fuel_of p))). Qed.
+
+Definition fia_witness : list stmt :=
+  [SIf (Unknown 1 []) [SAssign 0 (RVal (VBool true))] [SAssign 0 (RVal (VBool false))]; SReturn (RVar 0)].
+
+Theorem fix_if_assign_refuted : exists p, ~ obs_equiv p (fix_if_assign_model p).
+Proof.
+  exists fia_witness.
+  refute_with o_obj st0 fia_witness (fix_if_assign_model fia_witness).
+Qed.
+
+Example fix_if_assign_partial_nontrivial :
+  let p := [SIf (TNot (Unknown 1 [])) [SAssign 0 (RVal (VBool true))] [SAssign 0 (RVal (VBool false))];
+            SIf (Unknown 2 []) [SAssign 1 (RVal (VBool false))] [SAssign 1 (RVal (VBool true))]] in
+  fia_safe (fuel_of p) p = true /\ fix_if_assign_model p <> p.
+Proof. split; [reflexivity|discriminate]. Qed.
